@@ -137,6 +137,11 @@ type Service struct {
 	// by the cluster.
 	highWatermark atomic.Uint64
 
+	// storedAtStart is the highest index the FIFO had ever stored when this service was created.
+	// Events with a lower index which the database generates again, as the log is replayed
+	// after a restart, were written to the FIFO before the restart.
+	storedAtStart uint64
+
 	// unsent is an event which a leader loop read from the FIFO, but had not sent when it
 	// was stopped. Only leader loops touch it, and they never run concurrently.
 	unsent *Event
@@ -241,6 +246,11 @@ func NewService(nodeID, dir string, clstr Cluster, cfg *Config) (*Service, error
 	// In other words we assume that anything sitting in the queue has not been sent to the webhook.
 	// If that is not the case then an HWM update from other nodes in the cluster may update it
 	// (and prune the FIFO).
+	srv.storedAtStart, err = fifo.HighestKey()
+	if err != nil {
+		return nil, fmt.Errorf("failed to read highest key from FIFO: %w", err)
+	}
+
 	first, err := fifo.First()
 	if err != nil {
 		return nil, fmt.Errorf("failed to read first item from FIFO: %w", err)
@@ -461,11 +471,13 @@ func (s *Service) writeToBatcher() {
 				// Channel closed, exiting goroutine.
 				return
 			}
-			if o.Index != 0 && o.Index <= s.highWatermark.Load() {
+			if o.Index != 0 && (o.Index <= s.highWatermark.Load() || o.Index < s.storedAtStart) {
 				// High watermark has advanced since we processed these CDC events.
 				// This could happen on followers if the Leader has advanced the HWM
 				// but this node hasn't even had the event generated by its underlying
-				// database yet.
+				// database yet. Or the events are generated for a second time by the
+				// replay of the log after a restart, and are in the FIFO already; queued
+				// again they would be sent behind events with a higher index.
 				stats.Add(numBatcherWriteIgnored, 1)
 				vhook.Trace(s.nodeID, "cdc.in", "idx", o.Index, "ignored", true)
 				continue
